@@ -457,7 +457,8 @@ namespace bluetoe {
                     if ( args.buffer_size + args.buffer_offset > flags_size )
                         return details::attribute_access_result::invalid_attribute_value_length;
 
-                    if ( args.buffer_offset == 0 )
+                    // an empty write is the permission probe of a Prepare Write Request
+                    if ( args.buffer_offset == 0 && args.buffer_size != 0 )
                     {
                         const std::uint16_t old_config = args.client_config.flags( cccd_position );
                         std::uint8_t serialized_value[ flags_size ];
